@@ -10,7 +10,7 @@ import logging
 import types
 
 import vlib.env  # noqa: F401
-from vlib.cond import cond, reach
+from vlib.cond import cond, reach, pin, untraced
 from vlib import usbstub
 from vlib.seqz import core as Z
 from vlib.seqz import prims
@@ -170,7 +170,7 @@ def c_two_readers(mi: int, p0: int, t0: int, k0: int) -> bool:
   pre: 0 <= k0 <= 1
   post: _
   """
-  return _two_readers(mi, [(p0, t0)], [k0])
+  return untraced(_two_readers, pin(mi, 0, 5), [(pin(p0, 0, 300), pin(t0, 0, 1))], [pin(k0, 0, 1)])
 
 
 @cond(tiers=('thorough',), timeout=6000, split={'mi': range(6), 't0': range(2), 't1': range(2)})
@@ -181,10 +181,10 @@ def c_two_readers_2p(mi: int, p0: int, t0: int, p1: int, t1: int, k0: int) -> bo
   pre: 0 <= k0 <= 1
   post: _
   """
-  return _two_readers(mi, [(p0, t0), (p1, t1)], [k0])
+  return untraced(_two_readers, pin(mi, 0, 5), [(pin(p0, 0, 300), pin(t0, 0, 1)), (pin(p1, 0, 300), pin(t1, 0, 1))], [pin(k0, 0, 1)])
 
 
-def _scenario_b(where, where2, preempt, pick, yb=0, data='hello'):
+def _scenario_b(where, where2, preempt, pick, yb=0, data='hello', order=0):
   """Stream 1: a writer (5 bytes, maxdata 2) and a reader; the device sends WRTE 'z' after the host's
   where-th WRTE and WRTE 'y' after the where2-th (0 = before anything)."""
   dev, conn, streams = _mk([], maxdata=2)
@@ -210,16 +210,18 @@ def _scenario_b(where, where2, preempt, pick, yb=0, data='hello'):
     dev.inbox.append(('WRTE', 11, 1, 'y'))
   out, errs = [], []
   s = Z.Sched(preempt=preempt, pick=pick, max_steps=4000, time_skip=0.07)
-  s.spawn('reader', _reader(streams[1], out, errs, 4 if len(data) > 2 else 3, 60 if len(data) > 2 else 20))
-  s.spawn('writer', _writer(streams[1], data, errs))
+  rd = _reader(streams[1], out, errs, 4 if len(data) > 2 else 3, 60 if len(data) > 2 else 20)
+  wr = _writer(streams[1], data, errs)
+  for nm, g in ((('reader', rd), ('writer', wr)) if order == 0 else (('writer', wr), ('reader', rd))):
+    s.spawn(nm, g)                     # order: which thread gets to run first
   return dev, s, out, errs
 
 
 _W2 = tuple((a, b) for a in range(4) for b in range(a, 4))
 
 
-def _writer_and_reader(wi, yb, preempt, pick, data='hello'):
-  dev, s, out, errs = _scenario_b(_W2[wi][0], _W2[wi][1], preempt, pick, yb, data)
+def _writer_and_reader(wi, yb, preempt, pick, data='hello', order=0):
+  dev, s, out, errs = _scenario_b(_W2[wi][0], _W2[wi][1], preempt, pick, yb, data, order)
   try:
     s.run()
   except Z.Deadlock:
@@ -242,27 +244,27 @@ def _writer_and_reader(wi, yb, preempt, pick, data='hello'):
 
 
 @cond(timeout=1500, split={'wi': range(len(_W2)), 'yb': range(2)})
-def c_writer_and_reader(wi: int, yb: int, p0: int, t0: int, k0: int) -> bool:
+def c_writer_and_reader(wi: int, yb: int, order: int, p0: int, t0: int, k0: int) -> bool:
   """
-  pre: 0 <= wi < len(_W2) and 0 <= yb <= 1
+  pre: 0 <= wi < len(_W2) and 0 <= yb <= 1 and 0 <= order <= 1
   pre: 0 <= p0 <= 400 and 0 <= t0 <= 1
   pre: 0 <= k0 <= 1
   post: _
   """
-  return _writer_and_reader(wi, yb, [(p0, t0)], [k0])
+  return untraced(_writer_and_reader, pin(wi, 0, len(_W2) - 1), pin(yb, 0, 1), [(pin(p0, 0, 400), pin(t0, 0, 1))], [pin(k0, 0, 1)], 'hello', pin(order, 0, 1))
 
 
 _W2S = (0, 1, 4)     # short scenario (one chunk): (z, y) positions (0,0), (0,1), (1,1)
 
 
-@cond(timeout=3000, split={'ws': range(3), 'yb': range(2), 't0': range(2), 't1': range(2)})
+@cond(tiers=('thorough',), timeout=3000, split={'ws': range(3), 'yb': range(2), 't0': range(2), 't1': range(2)})
 def c_writer_and_reader_2p(ws: int, yb: int, p0: int, t0: int, p1: int, t1: int) -> bool:
   """
   pre: 0 <= ws <= 2 and 0 <= yb <= 1
   pre: 0 <= p0 <= 200 and p0 < p1 <= 200 and 0 <= t0 <= 1 and 0 <= t1 <= 1
   post: _
   """
-  return _writer_and_reader(_W2S[ws], yb, [(p0, t0), (p1, t1)], [], 'he')
+  return untraced(_writer_and_reader, _W2S[pin(ws, 0, 2)], pin(yb, 0, 1), [(pin(p0, 0, 200), pin(t0, 0, 1)), (pin(p1, 0, 200), pin(t1, 0, 1))], [], 'he')
 
 
 @cond(tiers=('thorough',), timeout=12000, split={'wi': range(len(_W2)), 'yb': range(2), 't0': range(2), 't1': range(2)})
@@ -272,7 +274,18 @@ def c_writer_and_reader_full_2p(wi: int, yb: int, p0: int, t0: int, p1: int, t1:
   pre: 0 <= p0 <= 400 and p0 < p1 <= 400 and 0 <= t0 <= 1 and 0 <= t1 <= 1
   post: _
   """
-  return _writer_and_reader(wi, yb, [(p0, t0), (p1, t1)], [])
+  return untraced(_writer_and_reader, pin(wi, 0, len(_W2) - 1), pin(yb, 0, 1), [(pin(p0, 0, 400), pin(t0, 0, 1)), (pin(p1, 0, 400), pin(t1, 0, 1))], [])
+
+
+def _witness(p0, t0):
+  dev, conn, streams = _mk([_PK[c] for c in 'xabC'])
+  out1, out2, errs = [], [], []
+  s = Z.Sched(preempt=[(p0, t0)], max_steps=3000, time_skip=0.07)
+  s.spawn('r1', _reader(streams[1], out1, errs, 4))
+  s.spawn('r2', _reader(streams[2], out2, errs, 4))
+  s.run()
+  # witness: reader 1 was the connection's reading thread when stream 2's packet arrived and handed it over
+  return not (''.join(x for x in out1 if not x.startswith('<')) == 'ab' and out2[:1] == ['x'] and ('r2', 'blocked') in s.trace)
 
 
 @cond(timeout=300, expect='refute')
@@ -281,11 +294,4 @@ def w_reader_gets_other_streams_packets(p0: int, t0: int) -> bool:
   pre: 0 <= p0 <= 90 and 0 <= t0 <= 1
   post: _
   """
-  dev, conn, streams = _mk([_PK[c] for c in 'xabC'])
-  out1, out2, errs = [], [], []
-  s = Z.Sched(preempt=[(p0, t0)], max_steps=3000, time_skip=0.07)
-  s.spawn('r1', _reader(streams[1], out1, errs, 4))
-  s.spawn('r2', _reader(streams[2], out2, errs, 4))
-  s.run()
-  # witness: reader 1 was the connection reader when stream 2's packet arrived and handed it over
-  return not (''.join(x for x in out1 if not x.startswith('<')) == 'ab' and out2[:1] == ['x'] and any(e == ('r2', 'blocked') for e in s.trace))
+  return untraced(_witness, pin(p0, 0, 90), pin(t0, 0, 1))
